@@ -102,3 +102,66 @@ def run(facts, rep):
         else:
             rep.unresolved(R, "assemble/scatter", "no indexed store of the c0 residues found", facts.loc(asm))
     return n
+
+
+def run_levels(facts, rep):
+    """R-LWEPAIR(levels) [N]: packing k ciphertexts uses l = ceil(log2 k) butterfly layers (table size 2^l, trace parameter
+    l).  The defining forms are recognised by a table: the loop `while (1 << l) < k { l += 1 }`, `k.next_power_of_two()
+    .trailing_zeros()`, `bit_length(k - 1)`; `bit_length(k)` (= floor(log2 k) + 1) is the same number except when k is a
+    power of two, where it is one more — the packed values then land at half the documented stride."""
+    R = "R-LWEPAIR(levels)"
+    rep.rule(R, "the layer count of pack_lwe_ciphertexts is ceil(log2 count) (recognised defining forms)")
+    p = "app::lwe::<impl evaluator::Evaluator>::pack_lwe_ciphertexts"
+    if not rep.anchor(R, p, p in facts.hir):
+        return 0
+    rep.fn(p)
+    body = facts.inlined(p)
+    # the level local: the one shifted in the size of the table `vec![..; 1 << l]`
+    lvl = None
+    for x in walk(body):
+        if x.get("k") == "Call" and (callee(x) or {}).get("def", "").endswith("vec::from_elem") and len(x["args"]) == 2:
+            a = strip(x["args"][1])
+            if a.get("k") == "Bin" and a.get("op") == "<<" and local_of(a["b"]):
+                lvl = local_of(a["b"])
+    if lvl is None:
+        rep.unresolved(R, "levels", "no table of size 1 << l found", facts.loc(p))
+        return 1
+    lets = [x for x in walk(body) if x.get("k") == "Let" and x["pat"].get("k") == "PBind" and x["pat"]["lid"] == lvl[0] and "init" in x]
+    form = None
+    where = lets[0] if lets else None
+    if lets:
+        init = strip(lets[0]["init"])
+        zero = init.get("k") == "Lit" and str(init.get("v", "")).split("_")[0] == "0"
+        if zero:
+            for w in walk(body):
+                if w.get("k") == "While":
+                    c = strip(w["c"])
+                    if c.get("k") == "Bin" and c.get("op") == "<":
+                        sh = strip(c["a"])
+                        if sh.get("k") == "Bin" and sh.get("op") == "<<" and local_of(sh["b"]) and local_of(sh["b"])[0] == lvl[0] \
+                                and str(strip(sh["a"]).get("v", "")).split("_")[0] == "1":
+                            inc = any(y.get("k") == "AssignOp" and y.get("op", "").startswith("+") and local_of(y["lhs"]) and
+                                      local_of(y["lhs"])[0] == lvl[0] and str(strip(y["rhs"]).get("v", "")).split("_")[0] == "1"
+                                      for y in walk(w["body"]))
+                            if inc:
+                                form = "ceil"
+                                where = w
+        else:
+            names = [y.get("name") or (callee(y) or {}).get("name") for y in walk(init) if y.get("k") in ("MCall", "Call")]
+            if "next_power_of_two" in names and "trailing_zeros" in names:
+                form = "ceil"
+            elif any(n in ("get_significant_bit_count", "bit_length") for n in names) or \
+                    ("leading_zeros" in names):
+                # bit length of k - 1 is ceil(log2 k); of k itself it is floor(log2 k) + 1
+                arg_minus_one = any(y.get("k") == "Bin" and y.get("op") == "-" and str(strip(y["b"]).get("v", "")).split("_")[0] == "1"
+                                    for y in walk(init))
+                form = "ceil" if arg_minus_one else "floor+1"
+    if form == "ceil":
+        rep.ok(R, "levels", "l is ceil(log2 count)", facts.loc(p, where))
+    elif form == "floor+1":
+        rep.violation(R, "levels", "the layer count is the bit length of the count, floor(log2 k) + 1: for a power-of-two count it "
+                      "is one more than ceil(log2 k), so the values are packed at half the documented stride (and k = N asks "
+                      "for a Galois key that does not exist)", facts.loc(p, where))
+    else:
+        rep.unresolved(R, "levels", "the definition of the layer count is not one of the recognised forms", facts.loc(p, where))
+    return 1
